@@ -15,8 +15,14 @@ def tok2f(v):
     return float("nan") if v == NAN else float("inf") if v == PINF else float("-inf") if v == NINF else float(v)
 
 
+NONE = 888888     # an exported entry that is not a number (the dictionary's encoding of it is left open)
+
+
 def f2tok(x):
-    x = float(x)
+    try:
+        x = float(x)
+    except (TypeError, ValueError):
+        return NONE if x is None else 777777
     if math.isnan(x):
         return NAN
     if math.isinf(x):
@@ -42,7 +48,12 @@ def project(v, names):
           "values": [f2tok(e["value"]) for e in d["data"]],
           "hit": bool(d["hitbounds"]), "chk": bool(d["check_hitbounds"]),
           "chkb": bool(d["check_bounds"]), "nanok": bool(d["accept_nan"])}
-    if ok_names and dd != st:
+    # (entries exported as None - e.g. a JSON-friendly encoding of "no bound" - are not compared here: what they mean
+    #  is decided by the from_dict round trip of the "dict" action)
+    same = all(dd[f] == st[f] if not isinstance(st[f], list) else
+               len(dd[f]) == len(st[f]) and all(a == b or a == NONE for a, b in zip(dd[f], st[f]))
+               for f in dd if f != "n") and dd["n"] == v.nval
+    if ok_names and not same:
         st["n"] = -2
     for i, nm in enumerate(names):
         a, b = f2tok(getattr(v, nm)), f2tok(v[nm])
